@@ -212,7 +212,22 @@ macro_rules! geom {
             // refract: unit incident and normal
             let vi: T = build_f64(&normalize(&a));
             let inc = f64s(&vi);
-            for eta in [0.5f64, 0.9, 1.0, 1.1, 1.5, 2.0] {
+            // the fixed ratios plus, per incident/normal pair, ratios placed just outside the rounding
+            // slack on either side of the total-internal-reflection boundary k = 0
+            let mut etas = vec![0.5f64, 0.9, 1.0, 1.1, 1.5, 2.0];
+            {
+                let ndi = dot(&nrm, &inc);
+                let sin2 = 1.0 - ndi * ndi;
+                if sin2 > 1e-4 {
+                    let eta0 = (1.0 / sin2).sqrt();
+                    let ks0 = 8.0 * (nn + 2.0) * eps * (1.0 + eta0 * eta0);
+                    for kt in [4.0 * ks0, 64.0 * ks0, 1000.0 * ks0, -4.0 * ks0, -64.0 * ks0, -1000.0 * ks0] {
+                        // as the operand type stores it
+                        etas.push(((1.0 - kt) / sin2).sqrt() as $S as f64);
+                    }
+                }
+            }
+            for eta in etas {
                 let ndi = dot(&nrm, &inc);
                 let k = 1.0 - eta * eta * (1.0 - ndi * ndi);
                 let kslack = 8.0 * (nn + 2.0) * eps * (1.0 + eta * eta);
@@ -229,7 +244,9 @@ macro_rules! geom {
                     let sq = k.sqrt();
                     let want: Vec<f64> = (0..N).map(|i| eta * inc[i] - (eta * ndi + sq) * nrm[i]).collect();
                     // sqrt conditioning: d sqrt(k) = dk / (2 sqrt k)
-                    let bound: Vec<f64> = (0..N).map(|i| 2.0 * (nn + 6.0) * eps * (eta * inc[i].abs() + (eta * dot_abs(&nrm, &inc) + sq + kslack / (2.0 * sq)) * nrm[i].abs())).collect();
+                    // (the error of k itself - at most (N+2) eps (1+eta^2), a quarter of kslack with a factor 2 to spare -
+                    // passes through the square root undamped: d sqrt(k) = dk / (2 sqrt k))
+                    let bound: Vec<f64> = (0..N).map(|i| 2.0 * (nn + 6.0) * eps * (eta * inc[i].abs() + (eta * dot_abs(&nrm, &inc) + sq) * nrm[i].abs()) + kslack / (8.0 * sq) * nrm[i].abs()).collect();
                     env_vec(acc, &format!("{tn}::refract"), &g, &want, &bound, &|| format!("{} eta={} k={}", ctx(), eta, k));
                 } else {
                     acc.branch("refract: within slack of the boundary (either side accepted)");
@@ -344,6 +361,11 @@ macro_rules! geom {
         } else {
             env($acc, &format!("{}::angle_to", $tn), g.abs(), th, tol, &$ctx);
         }
+        // the deprecated 2-D `angle_between` ("semantics will change"): its sign convention is not
+        // fixed by the statement, its magnitude is the angle
+        #[allow(deprecated)]
+        let gb = $va.angle_between($vb) as f64;
+        env($acc, &format!("{}::angle_between(magnitude)", $tn), gb.abs(), th, tol, &$ctx);
     }};
 }
 
